@@ -34,6 +34,7 @@ pub struct Args {
     pub seconds: Option<f64>,
     pub threads: usize,
     pub keep_going: bool,
+    pub strict: bool,
     pub digests: Option<String>,
     pub evidence: Option<String>,
     pub replay: Option<String>,
@@ -60,6 +61,7 @@ fn parse_args() -> Args {
         seconds: None,
         threads: std::thread::available_parallelism().map(|n| n.get()).unwrap_or(4),
         keep_going: false,
+        strict: false,
         digests: None,
         evidence: None,
         replay: None,
@@ -84,6 +86,7 @@ fn parse_args() -> Args {
             "--seconds" => a.seconds = Some(next(&mut i).parse().expect("seconds")),
             "--threads" => a.threads = next(&mut i).parse().expect("threads"),
             "--keep-going" => a.keep_going = true,
+            "--strict" => a.strict = true,
             "--digests" => a.digests = Some(next(&mut i)),
             "--evidence" => a.evidence = Some(next(&mut i)),
             "--known" => a.known = next(&mut i),
@@ -133,6 +136,12 @@ fn finish(cfg: &CampaignConfig, res: &CampaignResult, evidence: Value, evidence_
     );
     if !res.class_histogram.is_empty() {
         println!("violation classes seen (incl. known): {:?}", res.class_histogram);
+    }
+    if res.inconclusive > 0 {
+        println!("inconclusive runs: {} (not violations; see evidence)", res.inconclusive);
+        for e in res.inconclusive_examples.iter().take(2) {
+            println!("  e.g. {}", e.chars().take(300).collect::<String>().replace('\n', " / "));
+        }
     }
     if let Some(e) = &res.harness_error {
         println!("HARNESS-ERROR engine={} {e}", cfg.engine);
@@ -273,6 +282,7 @@ fn main() {
                 max_seconds: args.seconds.unwrap_or(if quick { 60.0 } else { 900.0 }),
                 threads: args.threads,
                 keep_going: args.keep_going,
+                strict: args.strict,
                 digest_file: args.digests.clone(),
                 replay_dir: args.replay_dir.clone(),
             };
@@ -299,6 +309,20 @@ fn main() {
             );
             finish(&cfg, &res, ev, &args.evidence);
         }
+        "run-script" => {
+            // debug helper: run a script file on an instrumented instance, print result and H3 state
+            let text = std::fs::read_to_string(&args.rest[0]).expect("script");
+            let _clock = host::install_clock();
+            let mut h = host::Host::new(host::HostSettings { run_tests: false, ..Default::default() });
+            let ts: unwindsim::SharedTick = Default::default();
+            unwindsim::add_sim_natives(&h, &ts);
+            let r = h.koto.compile_and_run(&text);
+            let r = host::render_result(&mut h.koto, r);
+            println!("result: {r:?}");
+            println!("markers: {:?}", h.take_log().markers);
+            println!("stdout: {:?}", h.stdout.take_output());
+            println!("state: {:?}", h.koto.verif_vm().verif_state());
+        }
         "modsim-show" => {
             modsim::show(args.rest[0].parse().expect("run seed"));
         }
@@ -311,6 +335,7 @@ fn main() {
                 max_seconds: args.seconds.unwrap_or(if quick { 60.0 } else { 900.0 }),
                 threads: args.threads,
                 keep_going: args.keep_going,
+                strict: args.strict,
                 digest_file: args.digests.clone(),
                 replay_dir: args.replay_dir.clone(),
             };
@@ -350,6 +375,7 @@ fn main() {
                 max_seconds: args.seconds.unwrap_or(if quick { 60.0 } else { 900.0 }),
                 threads: args.threads,
                 keep_going: args.keep_going,
+                strict: args.strict,
                 digest_file: args.digests.clone(),
                 replay_dir: args.replay_dir.clone(),
             };
@@ -392,6 +418,7 @@ fn main() {
                 max_seconds: args.seconds.unwrap_or(if quick { 60.0 } else { 900.0 }),
                 threads: args.threads,
                 keep_going: args.keep_going,
+                strict: args.strict,
                 digest_file: args.digests.clone(),
                 replay_dir: args.replay_dir.clone(),
             };
@@ -431,6 +458,7 @@ fn main() {
                 max_seconds: args.seconds.unwrap_or(if quick { 60.0 } else { 900.0 }),
                 threads: args.threads,
                 keep_going: args.keep_going,
+                strict: args.strict,
                 digest_file: args.digests.clone(),
                 replay_dir: args.replay_dir.clone(),
             };
